@@ -276,7 +276,7 @@ class Session:
     # hooks
     def _msg_hook(self, msg):
         self.msgs.append(msg)
-        self.timeline.append(("msg", len(self.msgs) - 1, msg.command))
+        self.timeline.append(("msg", len(self.msgs) - 1, msg.command, round(self.loop.time(), 6)))
         self.dpr.append(bool(self.RE.deferred_pause_requested))
 
     def _state_hook(self, new, old):
